@@ -20,7 +20,7 @@ ASSUMPTIONS = ["a check rejection is recognised operationally (ValueError with t
 BAD_VALUES = ["int0", "int1", "none", "str", "np_true", "float2", "list", "object", "np_false", "str_false"]
 CELL = [3.0, 4.0, 5.0, 80.0, 95.0, 100.0]
 OWN_ERRORS = ("Wrong trace of U", "_arctan2()")
-U_APIS = ["u_to_euler", "u_to_rod", "u_to_ubi", "Umis", "Umis2"]
+U_APIS = ["u_to_euler", "u_to_rod", "u_to_ubi", "Umis", "Umis2", "UmisBoth"]
 MODS = ["tools", "laue"]
 
 
@@ -103,6 +103,8 @@ class Sim(object):
             return lambda: symmetry.Umis(U, np.eye(3), op["sys"])
         if api == "Umis2":
             return lambda: symmetry.Umis(np.eye(3), U, op["sys"])
+        if api == "UmisBoth":            # the same matrix on both sides (valid: angle 0 expected; invalid: both improper / distorted)
+            return lambda: symmetry.Umis(U, U, op["sys"])
         if api == "euler_to_u":
             a = op["a"]
             return lambda: m.euler_to_u(a[0], a[1], a[2])
